@@ -789,6 +789,7 @@ class ParsersWorld:
                     via_paths[spec.get("tid", n_)] = pth
                 except UnicodeError:
                     pass            # not writable as a utf-8 text file: this task uses the plain API
+        gs0 = gstate.snapshot()
         prebuilt = {}
         for n_, spec in enumerate(trace["tasks"]):
             if spec.get("ctor_elsewhere") and not spec.get("via_file"):
@@ -857,6 +858,32 @@ class ParsersWorld:
                 st["violations"].append({"oracle": "isolation", "task": i, "obj": oi, "run": j,
                                          "expected": core.short(expected, 600), "observed": core.short(out, 600),
                                          "diff": core.first_diff(expected, out)})
+        if not st["violations"] and not deadlock:
+            # probe (not an oracle): did this history change process-global library state?  Then look for a victim now: corpus
+            # scripts on fresh objects, one after another, in this same process; each must parse as it does alone.
+            ch = gstate.changed(gs0, gstate.snapshot())
+            if ch:
+                st["stats"]["global_state_changed"] = 1
+                rv = core.stream(int(trace.get("seed") or 0), "victims-c15")
+                c = core.corpus()
+                idxs = [n for n in range(len(c)) if len(c[n]["ddl"]) <= 6000]
+                for idx in rv.sample(idxs, min(len(idxs), 48)):
+                    it = c[idx]
+                    st["stats"]["victims_run"] = st["stats"].get("victims_run", 0) + 1
+                    try:
+                        out = ["ok", core.canon(self.DDLParser(it["ddl"], **it["flags"]).run(**it["run"]))]
+                    except Exception as e:  # noqa
+                        out = core.outcome_of_exception(e)
+                    expected = self.ref(it["ddl"], it["flags"], it["run"])
+                    if out != expected:
+                        new_tid = max([t.get("tid", n) for n, t in enumerate(trace["tasks"])] + [0]) + 1
+                        trace_out["tasks"] = list(trace_out["tasks"]) + [{"tid": new_tid, "ddl": it["ddl"], "flags": dict(it["flags"]),
+                                                                          "runs": [dict(it["run"])], "src": "corpus:%d+victim" % idx}]
+                        st["violations"].append({"oracle": "isolation", "task": new_tid, "obj": 0, "run": 0, "found_by": "victim sweep",
+                                                 "changed_global_state": ch[:6],
+                                                 "expected": core.short(expected, 600), "observed": core.short(out, 600),
+                                                 "diff": core.first_diff(expected, out)})
+                        break
         st["stats"].update({"switches": S.switches, "label_points": S.label_points, "line_points": S.line_points, "lock_waits": S.lock_waits,
                             "marathon_runs": 1 if swarm.get("marathon") else 0, "gran_" + gran: 1,
                             "same_text_tasks": sum(1 for t in trace["tasks"] if (t.get("src") or "").endswith("+same")),
